@@ -92,6 +92,17 @@ func relRun(c *CheckCtx, rn Runner, e *Exec) (string, bool) {
 // exploreThenJudge runs a judge in-process and confirms a finding on the
 // black-box binary; only confirmed findings are returned.
 func exploreThenJudge(c *CheckCtx, s *Slot, judge func(rn Runner) *Violation) *Violation {
+	// a fixed share of the cases is judged on the plain binary directly: the
+	// in-process driver restates the round loop of main(), so a change there is
+	// only visible in a real process
+	every := c.bbEvery
+	if every == 0 {
+		every = 14
+	}
+	if n := c.caseCounter.Add(1); n%int64(every) == 0 || c.Eng.B.Degraded {
+		c.Event("cases_judged_blackbox_directly", 1)
+		return judge(s.BlackBox())
+	}
 	v := judge(s.InProc())
 	if v == nil {
 		return nil
